@@ -58,25 +58,46 @@ Proof.
       rewrite <- !app_assoc. reflexivity.
 Qed.
 
+(* when no item of the channel ends in an unabsorbed CancelledError, the exception that leaves the for
+   statement is never one, and the same holds of the rest of the channel *)
+Lemma for_loop_no_cancel own a : forall its s,
+  no_cancel own a s its = true ->
+  match for_loop own a s its with
+  | (_, _, None) => True
+  | (s', _, Some (e, rest)) => is_cancel e = false /\ no_cancel own a s' rest = true
+  end.
+Proof.
+  induction its as [|it its IH]; intros s H; [exact I|].
+  cbn [no_cancel] in H. apply andb_true_iff in H. destruct H as [H1 H2].
+  unfold cancels, step in *. cbn [for_loop].
+  destruct (run_item own a s it) as [[s1 e1] [u|e]]; cbn [fst] in H2.
+  - specialize (IH s1 H2). destruct (for_loop own a s1 its) as [[s2 e2] [[e rest]|]]; exact IH.
+  - apply negb_true_iff in H1. split; assumption.
+Qed.
+
 Lemma while_loop_total own a : forall fuel its s,
-  (List.length its < fuel)%nat ->
+  (List.length its < fuel)%nat -> no_cancel own a s its = true ->
   while_loop fuel own a s its =
   (fst (run own a s its), EListen :: List.concat (snd (run own a s its)) ++ [ELogErr], Exited).
 Proof.
-  induction fuel as [|f IH]; intros its s Hlen; [lia|].
+  induction fuel as [|f IH]; intros its s Hlen Hnc; [lia|].
   cbn [while_loop]. pose proof (for_loop_spec own a its s) as H.
+  pose proof (for_loop_no_cancel own a its s Hnc) as N.
   destruct (for_loop own a s its) as [[s1 e1] [[e rest]|]].
-  - destruct H as (Hl & Hs & Hc). rewrite IH by lia. rewrite Hs, Hc.
+  - destruct H as (Hl & Hs & Hc). destruct N as (Ne & Nr). rewrite Ne.
+    rewrite IH by (try lia; exact Nr). rewrite Hs, Hc.
     cbn [app]. rewrite <- !app_assoc. reflexivity.
   - destruct H as (Hs & Hc). subst. reflexivity.
 Qed.
 
-(* C15_total, first half: the literal transcription of the two nested loops never stops early,
-   never lets an exception out, and is exactly the fold of [step] over the whole channel *)
+(* C15_total, first half: as long as no CancelledError gets past the handlers (no_cancel), the literal
+   transcription of the two nested loops never stops early, never lets an exception out, and is exactly
+   the fold of [step] over the whole channel *)
 Theorem thread_total own a s its :
+  no_cancel own a s its = true ->
   thread own a s its =
   (fst (run own a s its), EListen :: List.concat (snd (run own a s its)) ++ [ELogErr], Exited).
-Proof. unfold thread. apply while_loop_total. lia. Qed.
+Proof. intros H. unfold thread. apply while_loop_total; [lia|exact H]. Qed.
 
 (* C15_total, second half: the k-th item is handled in the state left by the first k-1,
    whatever their outcome; one segment of effects per item *)
@@ -95,6 +116,7 @@ Example thread_total_example :
               IMsg (PDict kv) None None [None; Some RuntimeError];   (* the send raises: contained *)
               IRaise ValueError;
               IMsg (PDict kv) None None []] in
+  no_cancel (PStr (s2l "A")) false s its = true /\
   thread (PStr (s2l "A")) false s its =
   (s, [EListen; ELogExc TypeError; EListen;
        EOp OEmit [PStr (s2l "e"); PInt 1%Z; PStr (s2l "/"); PNone; PNone; PNone]; ELogExc RuntimeError;
@@ -102,7 +124,7 @@ Example thread_total_example :
        EOp OEmit [PStr (s2l "e"); PInt 1%Z; PStr (s2l "/"); PNone; PNone; PNone];
        ESend (PStr (s2l "e1")) (PTuple [PStr (s2l "/"); PList [PStr (s2l "e"); PInt 1%Z]; PNone]);
        ELogErr], Exited).
-Proof. vm_compute. reflexivity. Qed.
+Proof. vm_compute. split; reflexivity. Qed.
 
 (* ================================================================== *)
 (* 2. Ineffective messages                                             *)
@@ -169,7 +191,7 @@ Qed.
 (* ---- the body on a decoded dict ---- *)
 Lemma body_dict own a m pk js kv meth w :
   decode m pk js = PDict kv -> aget (PStr k_method) kv = Some meth ->
-  body own a m pk js w = catch (dispatch own a kv meth) (fun e => say (ELogExc e)) w.
+  body own a m pk js w = catch (dispatch own a kv meth) log_exc w.
 Proof.
   intros D Hm. unfold body. rewrite D.
   assert (T : truthy (PDict kv) = true).
@@ -199,21 +221,22 @@ Qed.
 
 (* catching and logging keeps a quiet computation quiet *)
 Lemma quiet_catch_log (m : M unit) w :
-  quiet w (fst (m w)) -> quiet w (fst (catch m (fun e => say (ELogExc e)) w)).
+  quiet w (fst (m w)) -> quiet w (fst (catch m log_exc w)).
 Proof.
   intros Q. unfold catch. destruct (m w) as [w' [u|e]]; cbn [fst] in *; [exact Q|].
+  unfold log_exc. destruct (is_cancel e); [exact Q|].
   eapply quiet_trans; [exact Q|]. apply quiet_say. reflexivity.
 Qed.
 
 (* ---- the quiet leaves of dispatch ---- *)
 
 (* trigger_callback for a sid / id that cannot be found *)
-Lemma trigger_unknown_quiet f own sid id args w :
+Lemma trigger_unknown_quiet f own a sid id args w :
   (hashable sid && hashable id = false \/
    aget sid (cbs (w_st w)) = None \/
    exists d, aget sid (cbs (w_st w)) = Some d /\
              (aget id d = None \/ exists n, aget id d = Some (Counter n))) ->
-  quiet w (fst (trigger (S f) own sid id args w)).
+  quiet w (fst (trigger (S f) own a sid id args w)).
 Proof.
   intros H. cbn [trigger]. unfold bindM at 1. cbn [say].
   set (w1 := mkW (w_st w) (w_fs w) (EOp OTrigger [sid; id; args] :: w_out w) (w_pend w)).
@@ -246,12 +269,12 @@ Proof.
   - unfold bindM at 1. cbn [raise fst]. eapply quiet_trans; eassumption.
 Qed.
 
-Lemma op_trigger_unknown_quiet own sid id args w :
+Lemma op_trigger_unknown_quiet own a sid id args w :
   (hashable sid && hashable id = false \/
    aget sid (cbs (w_st w)) = None \/
    exists d, aget sid (cbs (w_st w)) = Some d /\
              (aget id d = None \/ exists n, aget id d = Some (Counter n))) ->
-  quiet w (fst (op_trigger own sid id args w)).
+  quiet w (fst (op_trigger own a sid id args w)).
 Proof.
   intros H. unfold op_trigger. unfold bindM. cbn [getst]. apply trigger_unknown_quiet. exact H.
 Qed.
@@ -621,7 +644,19 @@ Section PresOps.
   Hypothesis P_cb : forall n l, P (ECallback n l).
   Hypothesis P_pub : forall h x y z args, py_eq h own = false -> P (EPublish (cb_msg h x y z args)).
 
-  Lemma pres_trigger : forall f sid id args, pres P (trigger f own sid id args).
+  Lemma pres_absorb_cancel (m : M unit) : pres P m -> pres P (absorb_cancel m).
+  Proof.
+    intros H. unfold absorb_cancel. apply pres_catch; [exact H|].
+    intros e. destruct (is_cancel e); [apply pres_ret|apply pres_raise].
+  Qed.
+  Lemma pres_log_exc e : pres P (log_exc e).
+  Proof. unfold log_exc. destruct (is_cancel e); [apply pres_raise|apply pres_say; apply P_logexc]. Qed.
+  Lemma pres_app_callback a n l : pres P (app_callback a n l).
+  Proof.
+    unfold app_callback. apply pres_bind; [apply pres_say; apply P_cb|intro].
+    destruct (cb_is_coro a n); [apply pres_absorb_cancel|]; apply pres_fault.
+  Qed.
+  Lemma pres_trigger a : forall f sid id args, pres P (trigger f own a sid id args).
   Proof.
     induction f as [|f IH]; intros sid id args; cbn [trigger]; [apply pres_raise|].
     apply pres_bind; [apply pres_say; apply P_op|intro].
@@ -634,13 +669,17 @@ Section PresOps.
     - intros [sl|]; [|apply pres_ret].
       apply pres_bind; [apply pres_lift|intros l].
       destruct sl as [n|n|h ca cb0 cc]; [apply pres_raise| |].
-      + apply pres_bind; [apply pres_say; apply P_cb|intro; apply pres_fault].
-      + destruct (py_eq h own) eqn:E; [apply IH|].
-        unfold publish. apply pres_bind; [apply pres_say; apply P_pub; exact E|intro; apply pres_fault].
+      + apply pres_app_callback.
+      + cbv zeta.
+        assert (R : pres P (if py_eq h own then trigger f own a ca cc (PTuple l)
+                            else publish (cb_msg h ca cb0 cc (PTuple l)))).
+        { destruct (py_eq h own) eqn:E; [apply IH|].
+          unfold publish. apply pres_bind; [apply pres_say; apply P_pub; exact E|intro; apply pres_fault]. }
+        destruct a; [apply pres_absorb_cancel|]; exact R.
   Qed.
-  Lemma pres_op_trigger sid id args : pres P (op_trigger own sid id args).
+  Lemma pres_op_trigger a sid id args : pres P (op_trigger own a sid id args).
   Proof. unfold op_trigger. apply pres_bind; [apply pres_getst|intro; apply pres_trigger]. Qed.
-  Lemma pres_handle_callback kv : pres P (handle_callback own kv).
+  Lemma pres_handle_callback a kv : pres P (handle_callback own a kv).
   Proof. unfold handle_callback. pres_auto. apply pres_op_trigger. Qed.
   Lemma pres_dispatch a kv meth : pres P (dispatch own a kv meth).
   Proof.
@@ -658,7 +697,7 @@ Section PresOps.
     apply pres_bind; [apply pres_lift|intros [|]]; [|apply pres_ret].
     apply pres_bind; [apply pres_lift|intros meth].
     destruct (decode m pk js); try apply pres_ret.
-    apply pres_catch; [apply pres_dispatch|intro; apply pres_say; apply P_logexc].
+    apply pres_catch; [apply pres_dispatch|intro; apply pres_log_exc].
   Qed.
 
   Lemma Forall_rev_iff (l : list eff) : Forall P l -> Forall P (rev l).
@@ -674,7 +713,7 @@ Section PresOps.
       apply Forall_app. split; [apply Forall_rev_iff; exact H2|].
       repeat constructor; [apply P_logexc|apply P_listen].
     - cbn. repeat constructor; [apply P_logexc|apply P_listen].
-    - assert (H : Forall P (w_out (fst (catch (op_trigger own sid id args) (fun e => say (ELogExc e)) (mkW s fs [] []))))).
+    - assert (H : Forall P (w_out (fst (catch (op_trigger own a sid id args) (fun e => say (ELogExc e)) (mkW s fs [] []))))).
       { apply pres_catch; [apply pres_op_trigger|intro; apply pres_say; apply P_logexc|constructor]. }
       destruct (catch _ _ _) as [w r]. cbn [fst] in H.
       unfold finish. pose proof (pres_flush w H) as H2. destruct (flush w) as [w' u]. cbn [fst] in H2.
@@ -741,7 +780,7 @@ Proof.
   destruct (aget (PStr k_method) kv) as [meth|] eqn:Hm.
   2: { rewrite (body_dict_nomethod own a m pk js kv w0 D Hm). constructor. }
   rewrite (body_dict own a m pk js kv meth w0 D Hm).
-  apply pres_catch; [|intro; apply pres_say; exact I|constructor].
+  apply pres_catch; [|intro e; unfold log_exc; destruct (is_cancel e); [apply pres_raise|apply pres_say; exact I]|constructor].
   unfold dispatch. specialize (H kv meth eq_refl Hm).
   destruct (py_eq meth (PStr k_callback)) eqn:C1.
   - destruct H as [H|H]; [discriminate H|]. unfold handle_callback. rewrite H. apply pres_ret.
@@ -853,6 +892,409 @@ Example sentinel_example :
   (s, [EOp OEmit [PStr (s2l "sent-1"); PInt 1%Z; PStr (s2l "/s"); PNone; PNone; PNone];
        ESend (PStr (s2l "eK")) (PTuple [PStr (s2l "/s"); PList [PStr (s2l "sent-1"); PInt 1%Z]; PNone])]).
 Proof. vm_compute. reflexivity. Qed.
+
+(* ================================================================== *)
+(* 5b. Application callbacks run by the listener (callback messages)   *)
+(* ================================================================== *)
+(* The acknowledgement of an emit-with-callback to a client of another server comes back as a `callback`
+   message; the listener itself runs the application's callback.  Under asyncio a coroutine callback may do
+   anything - return, raise, await a task the application cancelled (CancelledError) - and the for loop goes
+   on to the next message. *)
+Definition after_callback (s : mgr) (sid id : pv) (d : list (pv * cbslot)) : mgr :=
+  set_cbs s (aset sid (adel id d) (cbs s)).
+Definition cb_outcome_log (f : option exn) : list eff :=
+  match f with Some e => if is_cancel e then [] else [ELogExc e] | None => [] end.
+
+Lemma trigger_coroutine_callback f own sid id args l d n f2 r w :
+  w_fs w = None :: f2 :: r ->
+  hashable sid = true -> hashable id = true ->
+  aget sid (cbs (w_st w)) = Some d -> aget id d = Some (CbApp n) -> N.odd n = true ->
+  py_star args = Ok l ->
+  trigger (S f) own true sid id args w =
+  (mkW (after_callback (w_st w) sid id d) r
+       (ECallback n l :: EOp OTrigger [sid; id; args] :: w_out w) (w_pend w),
+   match f2 with Some e => if is_cancel e then Ok tt else Err e | None => Ok tt end).
+Proof.
+  intros Hfs Hs Hi Hd Hn Ho Hl. cbn [trigger].
+  unfold bindM, say, fault, catch, hk, getst, putst, ret, lift, raise; cbn [w_fs w_st w_out w_pend].
+  rewrite Hfs, Hs. cbn [w_st]. rewrite Hd, Hi. rewrite Hn. cbn [w_st w_fs w_out w_pend]. rewrite Hl.
+  unfold app_callback, cb_is_coro, absorb_cancel, bindM, say, catch, fault, ret, raise. rewrite Ho.
+  cbn [andb w_fs w_st w_out w_pend].
+  destruct f2 as [e|]; [|reflexivity]. destruct (is_cancel e); reflexivity.
+Qed.
+
+(* a `callback` message for this host *)
+Definition callback_message (own : pv) (kv : list (pv * pv)) (sid id args : pv) : Prop :=
+  aget (PStr k_method) kv = Some (PStr k_callback) /\ py_eq own (dget k_host_id kv) = true /\
+  dreq k_sid kv = Ok sid /\ dreq k_id kv = Ok id /\ dreq k_args kv = Ok args.
+
+Theorem coroutine_callback_contained own s m pk js kv sid id args l d n f2 r :
+  decode m pk js = PDict kv -> callback_message own kv sid id args ->
+  hashable sid = true -> hashable id = true ->
+  aget sid (cbs s) = Some d -> aget id d = Some (CbApp n) -> N.odd n = true ->
+  py_star args = Ok l ->
+  run_item own true s (IMsg m pk js (None :: f2 :: r)) =
+  (after_callback s sid id d,
+   EOp OTrigger [sid; id; args] :: ECallback n l :: cb_outcome_log f2, Ok tt).
+Proof.
+  intros D (Hm & Hh & Hsid & Hid & Hargs) Hs Hi Hd Hn Ho Hl.
+  unfold run_item. rewrite (body_dict own true m pk js kv _ _ D Hm).
+  unfold catch at 1. unfold dispatch. rewrite py_eq_str_refl.
+  unfold handle_callback. rewrite Hh, Hsid, Hid, Hargs.
+  unfold op_trigger. unfold bindM at 1. cbn [getst].
+  rewrite (trigger_coroutine_callback _ own sid id args l d n f2 r) by (try assumption; reflexivity).
+  cbn [w_st w_out w_pend].
+  destruct f2 as [e|]; [|reflexivity].
+  unfold cb_outcome_log. destruct (is_cancel e) eqn:E; [reflexivity|].
+  unfold log_exc. rewrite E. reflexivity.
+Qed.
+
+Lemma step_of_ok own a s it s' effs u :
+  run_item own a s it = (s', effs, Ok u) -> step own a s it = (s', effs) /\ cancels own a s it = false.
+Proof. intros H. unfold step, cancels. rewrite H. split; reflexivity. Qed.
+
+Theorem listener_continues_after_coroutine_callback own s m pk js kv sid id args l d n f2 r rest :
+  decode m pk js = PDict kv -> callback_message own kv sid id args ->
+  hashable sid = true -> hashable id = true ->
+  aget sid (cbs s) = Some d -> aget id d = Some (CbApp n) -> N.odd n = true ->
+  py_star args = Ok l ->
+  let s' := after_callback s sid id d in
+  no_cancel own true s' rest = true ->
+  thread own true s (IMsg m pk js (None :: f2 :: r) :: rest) =
+  (fst (run own true s' rest),
+   EListen :: (EOp OTrigger [sid; id; args] :: ECallback n l :: cb_outcome_log f2)
+           ++ List.concat (snd (run own true s' rest)) ++ [ELogErr], Exited).
+Proof.
+  intros D CM Hs Hi Hd Hn Ho Hl s' Hnc.
+  pose proof (coroutine_callback_contained own s m pk js kv sid id args l d n f2 r D CM Hs Hi Hd Hn Ho Hl) as R.
+  destruct (step_of_ok _ _ _ _ _ _ _ R) as (St & Cn).
+  rewrite thread_total.
+  - rewrite run_cons, St. cbn [fst snd List.concat]. rewrite <- app_assoc. reflexivity.
+  - cbn [no_cancel]. rewrite Cn, St. cbn [negb andb fst]. exact Hnc.
+Qed.
+
+Module CancelExamples.
+  Definition A := PStr (s2l "hostA").
+  Definition x1 := PStr (s2l "x1").          (* a client connected to ANOTHER server *)
+  Definition cK := PStr (s2l "c1").
+  Definition nsS := PStr (s2l "/s").
+  (* one local client in "/s"; two emits with callback went to x1: callback 1 is a coroutine, 2 a plain function *)
+  Definition s0 := mkMgr [(nsS, [(PNone, [(cK, PStr (s2l "eK"))]); (cK, [(cK, PStr (s2l "eK"))])])]
+                         [(x1, [(PInt 0%Z, Counter 3%Z); (PInt 1%Z, CbApp 1); (PInt 2%Z, CbApp 2)])].
+  Definition cbmsg (id : Z) :=
+    PDict [(PStr k_method, PStr k_callback); (PStr k_host_id, A); (PStr k_sid, x1); (PStr k_namespace, nsS);
+           (PStr k_id, PInt id); (PStr k_args, PList [PInt 4%Z])].
+  Definition sentinel :=
+    IMsg (PDict [(PStr k_method, PStr m_emit); (PStr k_event, PStr (s2l "sent-1")); (PStr k_data, PInt 1%Z);
+                 (PStr k_namespace, nsS); (PStr k_room, PNone); (PStr k_host_id, PStr (s2l "hostB"))]) None None [].
+  Definition delivered := ESend (PStr (s2l "eK")) (PTuple [nsS; PList [PStr (s2l "sent-1"); PInt 1%Z]; PNone]).
+
+  (* the hypotheses of the two theorems above hold here; the coroutine callback awaits a cancelled task, the
+     listener goes on and the sentinel that follows is delivered *)
+  Example coroutine_cancelled_survived :
+    callback_message A [(PStr k_method, PStr k_callback); (PStr k_host_id, A); (PStr k_sid, x1); (PStr k_namespace, nsS);
+                        (PStr k_id, PInt 1%Z); (PStr k_args, PList [PInt 4%Z])] x1 (PInt 1%Z) (PList [PInt 4%Z]) /\
+    no_cancel A true s0 [IMsg (cbmsg 1) None None [None; Some Cancelled]; sentinel] = true /\
+    thread A true s0 [IMsg (cbmsg 1) None None [None; Some Cancelled]; sentinel] =
+    (mkMgr (rooms s0) [(x1, [(PInt 0%Z, Counter 3%Z); (PInt 2%Z, CbApp 2)])],
+     [EListen; EOp OTrigger [x1; PInt 1%Z; PList [PInt 4%Z]]; ECallback 1 [PInt 4%Z];
+      EOp OEmit [PStr (s2l "sent-1"); PInt 1%Z; nsS; PNone; PNone; PNone]; delivered; ELogErr], Exited).
+  Proof. vm_compute. repeat split. Qed.
+
+  (* REFUTATION of "survives whatever a callback does" for PLAIN-function callbacks under asyncio: callback 2
+     raises CancelledError (job.result() of a cancelled task).  `ret = callback( *data)` is outside
+     trigger_callback's try, `except Exception` does not apply, the outer `except asyncio.CancelledError: break`
+     ends the listener: the sentinel is never read *)
+  Example plain_callback_cancelled_stops_asyncio_listener :
+    thread A true s0 [IMsg (cbmsg 2) None None [None; Some Cancelled]; sentinel] =
+    (mkMgr (rooms s0) [(x1, [(PInt 0%Z, Counter 3%Z); (PInt 1%Z, CbApp 1)])],
+     [EListen; EOp OTrigger [x1; PInt 2%Z; PList [PInt 4%Z]]; ECallback 2 [PInt 4%Z]], Stopped) /\
+    no_cancel A true s0 [IMsg (cbmsg 2) None None [None; Some Cancelled]; sentinel] = false.
+  Proof. vm_compute. split; reflexivity. Qed.
+
+  (* the threaded manager has no such handler at all: any BaseException outside Exception leaves _thread *)
+  Example base_exception_leaves_threaded_listener :
+    snd (thread A false s0 [IMsg (cbmsg 1) None None [None; Some Cancelled]; sentinel]) = Stopped.
+  Proof. vm_compute. reflexivity. Qed.
+
+  (* an ordinary exception out of either kind of callback is logged and the loop goes on *)
+  Example callback_raises_survived :
+    snd (thread A true s0 [IMsg (cbmsg 2) None None [None; Some RuntimeError]; sentinel]) = Exited /\
+    In delivered (snd (fst (thread A true s0 [IMsg (cbmsg 2) None None [None; Some RuntimeError]; sentinel]))) /\
+    In delivered (snd (fst (thread A false s0 [IMsg (cbmsg 1) None None [None; Some ValueError]; sentinel]))).
+  Proof. vm_compute. repeat split; tauto. Qed.
+End CancelExamples.
+
+(* C15_total does not extend to CancelledError raised by a PLAIN-function callback under asyncio (nor to any
+   BaseException under the threaded manager): there is a channel on which the listener stops and the message
+   that follows - which has an observable effect when it is handled - is never handled *)
+Theorem total_refuted_by_cancelled_plain_callback :
+  exists own s it sent e,
+    ordinary_item sent = true /\
+    In e (snd (step own true (fst (step own true s it)) sent)) /\ observable e = true /\
+    snd (thread own true s [it; sent]) = Stopped /\
+    ~ In e (snd (fst (thread own true s [it; sent]))).
+Proof.
+  exists CancelExamples.A, CancelExamples.s0, (IMsg (CancelExamples.cbmsg 2) None None [None; Some Cancelled]),
+         CancelExamples.sentinel, CancelExamples.delivered.
+  vm_compute. repeat split; try tauto.
+  intros [H|[H|[H|[]]]]; discriminate H.
+Qed.
+
+(* ================================================================== *)
+(* Faults that are Exception subclasses never end the listener         *)
+(* ================================================================== *)
+Definition nc {A} (r : Res A) : Prop := match r with Err e => is_cancel e = false | Ok _ => True end.
+Definition okw (w : world) : Prop := ordinary_script (w_fs w) = true.
+(* m raises a CancelledError only if the fault script tells it to *)
+Definition safe {A} (m : M A) : Prop := forall w, okw w -> okw (fst (m w)) /\ nc (snd (m w)).
+
+Lemma nc_bind A B (r : Res A) (k : A -> Res B) : nc r -> (forall a, nc (k a)) -> nc (bind r k).
+Proof. destruct r; cbn; auto. Qed.
+
+Lemma safe_ret A (x : A) : safe (ret x).
+Proof. intros w H. split; [exact H|exact I]. Qed.
+Lemma safe_raise A e : is_cancel e = false -> safe (@raise A e).
+Proof. intros E w H. split; [exact H|exact E]. Qed.
+Lemma safe_lift A (r : Res A) : nc r -> safe (lift r).
+Proof. intros E w H. split; [exact H|exact E]. Qed.
+Lemma safe_getst : safe getst.
+Proof. intros w H. split; [exact H|exact I]. Qed.
+Lemma safe_putst s : safe (putst s).
+Proof. intros w H. split; [exact H|exact I]. Qed.
+Lemma safe_say e : safe (say e).
+Proof. intros w H. split; [exact H|exact I]. Qed.
+Lemma safe_push_pend e p : safe (push_pend e p).
+Proof. intros w H. split; [exact H|exact I]. Qed.
+Lemma safe_hk k : safe (hk k).
+Proof. unfold hk. destruct (hashable k); [apply safe_ret|apply safe_raise; reflexivity]. Qed.
+Lemma safe_fault : safe fault.
+Proof.
+  intros w H. unfold okw in *. unfold fault. destruct (w_fs w) as [|[e|] r] eqn:F; cbn [fst snd w_fs nc].
+  - rewrite F. split; [reflexivity|exact I].
+  - cbn in H. apply andb_true_iff in H. destruct H as [H1 H2]. split; [exact H2|]. apply negb_true_iff. exact H1.
+  - cbn in H. split; [exact H|exact I].
+Qed.
+Lemma safe_bind A B (m : M A) (k : A -> M B) : safe m -> (forall x, safe (k x)) -> safe (bindM m k).
+Proof.
+  intros Hm Hk w H. unfold bindM. destruct (Hm w H) as [H1 H2].
+  destruct (m w) as [w' [x|e]]; cbn [fst snd] in *; [apply Hk; exact H1|split; assumption].
+Qed.
+Lemma safe_catch A (m : M A) (h : exn -> M A) : safe m -> (forall e, is_cancel e = false -> safe (h e)) -> safe (catch m h).
+Proof.
+  intros Hm Hh w H. unfold catch. destruct (Hm w H) as [H1 H2].
+  destruct (m w) as [w' [x|e]]; cbn [fst snd] in *; [split; [exact H1|exact I]|apply Hh; assumption].
+Qed.
+Lemma safe_if A (c : bool) (x y : M A) : safe x -> safe y -> safe (if c then x else y).
+Proof. destruct c; auto. Qed.
+
+(* the pure helpers only raise TypeError / KeyError / IndexError / OtherError / OracleMiss *)
+Lemma nc_py_star v : nc (py_star v).
+Proof. destruct v; cbn; auto. Qed.
+Lemma nc_py_len v : nc (py_len v).
+Proof. destruct v; cbn; auto. Qed.
+Lemma nc_dreq k kv : nc (dreq k kv).
+Proof. unfold dreq. destruct (aget _ kv); cbn; auto. Qed.
+Lemma nc_py_in_method d : nc (py_in_method d).
+Proof. destruct d; cbn; auto. Qed.
+Lemma nc_py_getitem_method d : nc (py_getitem_method d).
+Proof. destruct d; cbn; auto. apply nc_dreq. Qed.
+Lemma nc_bidict_put sid eio bm : nc (bidict_put sid eio bm).
+Proof.
+  unfold bidict_put. destruct (aget sid bm); [destruct (py_eq _ _); cbn; auto|];
+    destruct (existsb _ bm); cbn; auto.
+Qed.
+Lemma nc_is_connected_raw m sid ns : nc (is_connected_raw m sid ns).
+Proof.
+  unfold is_connected_raw. destruct (negb (hashable ns)); cbn; auto.
+  destruct (aget ns (rooms m)); cbn; auto. destruct (aget PNone n); cbn; auto.
+  destruct (negb (hashable sid)); cbn; auto. destruct (aget sid b); cbn; auto.
+Qed.
+Lemma nc_room_members nr r : nc (room_members nr r).
+Proof. unfold room_members. destruct (hashable r); cbn; auto. Qed.
+Lemma nc_multi_members nr l : nc (multi_members nr l).
+Proof.
+  unfold multi_members. destruct l as [|r0 rest]; cbn; auto.
+  pose proof (nc_room_members nr r0) as H0. destruct (room_members nr r0) as [p0|e]; cbn; [|exact H0].
+  assert (G : forall rest (acc : Res bimap), nc acc ->
+            nc (fold_left (fun acc r => a <- acc ;; b <- room_members nr r ;; Ok (merge a b)) rest acc)).
+  { induction rest0 as [|r rest0 IH]; intros acc Ha; cbn [fold_left]; [exact Ha|].
+    apply IH. apply nc_bind; [exact Ha|intro]. apply nc_bind; [apply nc_room_members|intro; exact I]. }
+  apply G. exact I.
+Qed.
+Lemma nc_get_participants m ns room : nc (get_participants m ns room).
+Proof.
+  unfold get_participants. destruct (negb (hashable ns)); cbn; auto.
+  destruct room as [| b | z | t | st | st | l | l | kv | n]; try apply nc_room_members; try apply nc_multi_members.
+  destruct (aget (PInt 0%Z) kv) as [r0|]; cbn; auto. destruct (hashable r0); cbn; auto.
+Qed.
+Lemma nc_remote_cb rc rh : nc (remote_cb rc rh).
+Proof.
+  unfold remote_cb. destruct rc; cbn; auto.
+  all: try (match goal with |- context [if ?c then _ else _] => destruct c end; cbn; auto).
+  all: repeat (match goal with |- context [match ?x with _ => _ end] => destruct x end; cbn; auto).
+Qed.
+
+Ltac safe_step :=
+  lazymatch goal with
+  | |- safe (bindM _ _) => apply safe_bind; [|intro]
+  | |- safe (ret _) => apply safe_ret
+  | |- safe (raise _) => apply safe_raise; reflexivity
+  | |- safe (lift (py_star _)) => apply safe_lift; apply nc_py_star
+  | |- safe (lift (bidict_put _ _ _)) => apply safe_lift; apply nc_bidict_put
+  | |- safe (lift (get_participants _ _ _)) => apply safe_lift; apply nc_get_participants
+  | |- safe (lift (is_connected_raw _ _ _)) => apply safe_lift; apply nc_is_connected_raw
+  | |- safe (lift (remote_cb _ _)) => apply safe_lift; apply nc_remote_cb
+  | |- safe (lift (dreq _ _)) => apply safe_lift; apply nc_dreq
+  | |- safe (lift (py_in_method _)) => apply safe_lift; apply nc_py_in_method
+  | |- safe (lift (py_getitem_method _)) => apply safe_lift; apply nc_py_getitem_method
+  | |- safe getst => apply safe_getst
+  | |- safe (putst _) => apply safe_putst
+  | |- safe (say _) => apply safe_say
+  | |- safe (push_pend _ _) => apply safe_push_pend
+  | |- safe (hk _) => apply safe_hk
+  | |- safe fault => apply safe_fault
+  | |- safe (swallow_key _) => unfold swallow_key; apply safe_catch; [|let e := fresh "e" in let E := fresh "E" in intros e E; destruct e; try discriminate E]
+  | |- safe (match ?x with _ => _ end) => destruct x
+  | |- safe (let _ := _ in _) => cbv zeta
+  end.
+Ltac safe_auto := repeat safe_step.
+
+Lemma safe_basic_enter_room sid ns room : safe (basic_enter_room sid ns room).
+Proof. unfold basic_enter_room. safe_auto. Qed.
+Lemma safe_basic_leave_room sid ns room : safe (basic_leave_room sid ns room).
+Proof. unfold basic_leave_room. safe_auto. Qed.
+Lemma safe_leave_all ns room parts : safe (leave_all ns room parts).
+Proof.
+  induction parts as [|[sid e] rest IH]; cbn [leave_all]; [apply safe_ret|].
+  apply safe_bind; [apply safe_basic_leave_room|intro; exact IH].
+Qed.
+Lemma safe_basic_close_room room ns : safe (basic_close_room room ns).
+Proof. unfold basic_close_room. safe_auto. apply safe_leave_all. Qed.
+Lemma safe_gen_ack_id sid cb : safe (gen_ack_id sid cb).
+Proof. unfold gen_ack_id. safe_auto. Qed.
+Lemma safe_send eio pkt : safe (send eio pkt).
+Proof. unfold send. safe_auto. Qed.
+Lemma safe_emit_sync ns payload cb skip parts : safe (emit_sync ns payload cb skip parts).
+Proof.
+  induction parts as [|[sid e] rest IH]; cbn [emit_sync]; [apply safe_ret|].
+  destruct (existsb _ skip); [exact IH|].
+  apply safe_bind.
+  - destruct cb; [|apply safe_ret]. apply safe_bind; [apply safe_gen_ack_id|intro; apply safe_ret].
+  - intro. apply safe_bind; [apply safe_send|intro; exact IH].
+Qed.
+Lemma safe_emit_async_tasks ns payload cb skip parts : safe (emit_async_tasks ns payload cb skip parts).
+Proof.
+  induction parts as [|[sid e] rest IH]; cbn [emit_async_tasks]; [apply safe_ret|].
+  destruct (existsb _ skip); [exact IH|].
+  apply safe_bind.
+  - destruct cb; [|apply safe_ret]. apply safe_bind; [apply safe_gen_ack_id|intro; apply safe_ret].
+  - intro. apply safe_bind; [apply safe_push_pend|intro; exact IH].
+Qed.
+Lemma safe_run_sends l : safe (run_sends l).
+Proof.
+  induction l as [|[e p] rest IH]; cbn [run_sends]; [apply safe_ret|].
+  apply safe_bind; [|intro; exact IH].
+  apply safe_catch; [apply safe_send|intros; apply safe_ret].
+Qed.
+Lemma safe_flush : safe flush.
+Proof. intros w H. unfold flush. apply safe_run_sends. exact H. Qed.
+Lemma safe_op_emit a ev da ns room skip cb : safe (op_emit a ev da ns room skip cb).
+Proof.
+  unfold op_emit. safe_auto.
+  - apply safe_emit_async_tasks.
+  - apply safe_flush.
+  - apply safe_emit_sync.
+Qed.
+Lemma safe_op_is_connected sid ns : safe (op_is_connected sid ns).
+Proof. unfold op_is_connected. safe_auto. Qed.
+Lemma safe_op_enter_room sid ns room : safe (op_enter_room sid ns room).
+Proof. unfold op_enter_room. safe_auto. apply safe_basic_enter_room. Qed.
+Lemma safe_op_leave_room sid ns room : safe (op_leave_room sid ns room).
+Proof. unfold op_leave_room. safe_auto. apply safe_basic_leave_room. Qed.
+Lemma safe_op_close_room room ns : safe (op_close_room room ns).
+Proof. unfold op_close_room. safe_auto. apply safe_basic_close_room. Qed.
+Lemma safe_leave_rooms sid ns names : safe (leave_rooms sid ns names).
+Proof.
+  induction names as [|r rest IH]; cbn [leave_rooms]; [apply safe_ret|].
+  apply safe_bind; [apply safe_basic_leave_room|intro; exact IH].
+Qed.
+Lemma safe_server_disconnect sid ns : safe (server_disconnect sid ns).
+Proof. unfold server_disconnect. safe_auto. unfold basic_disconnect. safe_auto. apply safe_leave_rooms. Qed.
+Lemma safe_handle_emit a kv : safe (handle_emit a kv).
+Proof. unfold handle_emit. safe_auto. apply safe_op_emit. Qed.
+Lemma safe_absorb_cancel (m : M unit) : safe m -> safe (absorb_cancel m).
+Proof.
+  intros H. unfold absorb_cancel. apply safe_catch; [exact H|].
+  intros e E. rewrite E. apply safe_raise. exact E.
+Qed.
+Lemma safe_app_callback a n l : safe (app_callback a n l).
+Proof.
+  unfold app_callback. apply safe_bind; [apply safe_say|intro].
+  destruct (cb_is_coro a n); [apply safe_absorb_cancel|]; apply safe_fault.
+Qed.
+Lemma safe_trigger own a : forall f sid id args, safe (trigger f own a sid id args).
+Proof.
+  induction f as [|f IH]; intros sid id args; cbn [trigger]; [apply safe_raise; reflexivity|].
+  apply safe_bind; [apply safe_say|intro].
+  apply safe_bind; [apply safe_fault|intro].
+  apply safe_bind.
+  - apply safe_catch.
+    + safe_auto.
+    + intros e E. destruct e; try (apply safe_raise; exact E). safe_auto.
+  - intros [sl|]; [|apply safe_ret].
+    apply safe_bind; [apply safe_lift; apply nc_py_star|intros l].
+    destruct sl as [n|n|h ca cb0 cc]; [apply safe_raise; reflexivity| |].
+    + apply safe_app_callback.
+    + cbv zeta.
+      assert (R : safe (if py_eq h own then trigger f own a ca cc (PTuple l)
+                        else publish (cb_msg h ca cb0 cc (PTuple l)))).
+      { destruct (py_eq h own); [apply IH|]. unfold publish. safe_auto. }
+      destruct a; [apply safe_absorb_cancel|]; exact R.
+Qed.
+Lemma safe_op_trigger own a sid id args : safe (op_trigger own a sid id args).
+Proof. unfold op_trigger. apply safe_bind; [apply safe_getst|intro; apply safe_trigger]. Qed.
+Lemma safe_dispatch own a kv meth : safe (dispatch own a kv meth).
+Proof.
+  unfold dispatch, handle_callback, handle_disconnect, handle_enter_room, handle_leave_room, handle_close_room.
+  safe_auto; try apply safe_op_trigger; try apply safe_handle_emit; try apply safe_server_disconnect;
+    try apply safe_op_close_room; try apply safe_op_is_connected; try apply safe_op_enter_room;
+    try apply safe_op_leave_room.
+Qed.
+Lemma safe_body own a m pk js : safe (body own a m pk js).
+Proof.
+  unfold body. cbv zeta. destruct (truthy _); [|apply safe_ret].
+  apply safe_bind; [apply safe_lift; apply nc_py_in_method|intros [|]]; [|apply safe_ret].
+  apply safe_bind; [apply safe_lift; apply nc_py_getitem_method|intros meth].
+  destruct (decode m pk js); try apply safe_ret.
+  apply safe_catch; [apply safe_dispatch|]. intros e E. unfold log_exc. rewrite E. apply safe_say.
+Qed.
+
+Lemma ordinary_item_not_cancels own a s it : ordinary_item it = true -> cancels own a s it = false.
+Proof.
+  intros H. unfold cancels, run_item. destruct it as [m pk js fs | e | sid id args fs].
+  - destruct (safe_body own a m pk js (mkW s fs [] []) H) as [_ N].
+    destruct (body own a m pk js (mkW s fs [] [])) as [w r]. cbn [snd] in N.
+    unfold finish. destruct (flush w) as [w' u]. destruct r; [reflexivity|exact N].
+  - cbn in H. apply negb_true_iff in H. exact H.
+  - destruct (catch _ _ _) as [w r]. unfold finish. destruct (flush w). reflexivity.
+Qed.
+
+(* whatever Exception subclasses the operations, callbacks and the iterator raise, wherever they raise them,
+   no item ends the listener *)
+Theorem ordinary_faults_no_cancel own a : forall its s,
+  forallb ordinary_item its = true -> no_cancel own a s its = true.
+Proof.
+  induction its as [|it its IH]; intros s H; [reflexivity|].
+  cbn [forallb] in H. apply andb_true_iff in H. destruct H as [H1 H2].
+  cbn [no_cancel]. rewrite (ordinary_item_not_cancels own a s it H1). cbn [negb andb]. apply IH. exact H2.
+Qed.
+
+Theorem thread_total_ordinary own a s its :
+  forallb ordinary_item its = true ->
+  thread own a s its =
+  (fst (run own a s its), EListen :: List.concat (snd (run own a s its)) ++ [ELogErr], Exited).
+Proof. intros H. apply thread_total. apply ordinary_faults_no_cancel. exact H. Qed.
 
 (* ================================================================== *)
 (* 6. The Redis retry loops                                            *)
